@@ -287,6 +287,11 @@ def scripted(name):
         # the local kernel asks the RESPONDER for a CHILD_SA while its IKE_SA is still half-open: the ACQUIRE is queued and
         # stays queued after IKE_AUTH (the queue is drained only when a response arrives)
         'acquire_queued_at_responder': [['acquire', 'A', 80], D, ['acquire', 'B', 0], D, D, D, ['tick', 1]],
+        # F22: the kernel asks for a CHILD_SA while the IKE_SA is being rekeyed: at the rekey responder right after it
+        # answered (its old IKE_SA is REKEYED), at the rekey initiator right after the response (old one waits for the
+        # answer to its DELETE); the successor must negotiate it
+        'acquire_during_ike_rekey': HANDSHAKE + [['rekey_ike', 'A'], D, ['acquire', 'B', 0], D, ['acquire', 'A', 85],
+                                                 D, D, D, D, D, D, D, D],
         'spi_reuse_after_crossing_delete': HANDSHAKE + [['expire', 'A', 0, 1], ['expire', 'B', 0, 1], ['deliver', 1],
                                                         ['deliver', 1], ['force_spi_first', 'B'], ['acquire', 'B', 0],
                                                         ['deliver', 1], ['deliver', 1], D, D, D, D],
@@ -309,7 +314,7 @@ SCRIPTED = ['handshake', 'new_child', 'new_child_from_responder', 'rekey_child',
 # scripted histories that need something special (forced SPI collisions, a postponed IKE_SA rekey): used by the
 # handler correspondence and by individual oracles, not by the generic plans
 SPECIAL = ['spi_collision_out', 'spi_collision_in', 'spi_collision_rekey', 'postponed_rekey_then_child', 'ike_spi_reuse',
-           'crossing_children', 'cookie_handshake', 'spi_reuse_after_crossing_delete', 'acquire_queued_at_responder']
+           'crossing_children', 'cookie_handshake', 'spi_reuse_after_crossing_delete', 'acquire_queued_at_responder', 'acquire_during_ike_rekey']
 
 
 def random_walk(rng, n, handshake=True, weights=None):
